@@ -35,6 +35,7 @@ INVALIDATING = ("subject_to", "clear_constraints", "add_objective", "method", "s
 BASE2 = P.case(state="scalar", horizon="Tfree", cons=[P.con("bc0")], obj=["mayer_tf", "integral", "T"], method="MS", N=2)
 ALPHABET2 = [
     ["set_initial", "x", "expr", "lin"],
+    ["set_initial", "x", "expr", "sin"],
     ["set_initial", "x", "const", 0.4],
     ["set_initial", "T", "const", 3.1],
     ["set_initial", "T", "const", 0.8],
@@ -94,6 +95,6 @@ def run_case(case):
 
 def describe(tier):
     return dict(
-        rule="(base 2: free horizon, 11-operation alphabet with time-expression guesses, guesses of T, methods with other grids, query, solve) and every operation sequence of length <= d over a 20-operation alphabet (4 subject_to incl. the integrator and collocation-point grids, clear_constraints, add_objective, 3 methods, 2 solver option sets, set_T, set_t0, set_der with another right-hand side, 2 set_value, set_initial, query, solve, reading the latest solution object again) applied to a live Ocp (no implementation-side state merging), followed by the observation `solve` under a solver spy; oracle: the NLP (canonical rows, objective, start point, parameter vector) and solver settings seen by the solver equal those of a fresh Ocp declared from the final specification; a second solve sees the same; public declared state unchanged by queries/solves; distinct = digest of the observation",
+        rule="(base 2: free horizon, 12-operation alphabet with time-expression guesses, guesses of T, methods with other grids, query, solve) and every operation sequence of length <= d over a 20-operation alphabet (4 subject_to incl. the integrator and collocation-point grids, clear_constraints, add_objective, 3 methods, 2 solver option sets, set_T, set_t0, set_der with another right-hand side, 2 set_value, set_initial, query, solve, reading the latest solution object again) applied to a live Ocp (no implementation-side state merging), followed by the observation `solve` under a solver spy; oracle: the NLP (canonical rows, objective, start point, parameter vector) and solver settings seen by the solver equal those of a fresh Ocp declared from the final specification; a second solve sees the same; public declared state unchanged by queries/solves; distinct = digest of the observation",
         bound="depth %d%s" % ((4, " + restricted depth 5") if tier == "thorough" else (3, "")),
         assumptions=["solver spy at casadi.Opti.solve/solve_limited/solver is 'what the solver receives'", "observation with ipopt max_iter=0 (returns the start point)", "rows compared at 2 generic points and the start point"])
